@@ -3,7 +3,7 @@
 use better_any::{Tid, TidAble};
 use contracts::ensures;
 use derive_more::{Deref, DerefMut};
-use eyre::ContextCompat;
+use eyre::{ensure, ContextCompat};
 use rand::Rng;
 use serde::{Deserialize, Serialize};
 
@@ -49,10 +49,18 @@ impl<P: SingleObjectiveProblem> Component<P> for ExponentialAnnealingAcceptance 
         Ok(())
     }
 
-    #[ensures(state.populations().current().len() == 1, "population after should contain a single individual")]
-    #[ensures(state.populations().len() == old(state.populations().len()) - 1)]
+    #[ensures(ret.is_err() || state.populations().current().len() == 1, "population after should contain a single individual")]
+    #[ensures(ret.is_err() || state.populations().len() == old(state.populations().len()) - 1)]
     fn execute(&self, _problem: &P, state: &mut State<P>) -> ExecResult<()> {
         let mut populations = state.populations_mut();
+        ensure!(
+            populations.len() >= 2,
+            "the current and the candidate solution are required on the stack"
+        );
+        ensure!(
+            populations.peek(1).len() == 1 && populations.peek(0).len() == 1,
+            "the two top-most populations must contain exactly one individual"
+        );
 
         let o_current = populations
             .peek(1)
